@@ -25,6 +25,8 @@ structure DState where
   impl : SImpl
   lastClear : Nat
   addTimes : List Nat
+  conns : List String := []     -- stream `writers`: connection ids of the current case
+  world : Bool := false         -- streams `keys` / `writers`: a world exists
 
 def DState.init : DState := { impl := Impl.new 0 true true, lastClear := 0, addTimes := [] }
 
@@ -141,23 +143,24 @@ def step (s : DState) (toks : List String) : DState × String :=
       ({ s with impl := x }, s!"ok {showImpl x}")
   -- stream `keys`: the spec side of KeyComplete (theorem `cache_invisible`): generation with a warm shared
   -- cache equals generation from scratch, for every pair of proxies
-  | ["case", _, _, _] => (s, "ok")
-  | ["pair", _, _] => (s, "eq")
-  | ["seq", _] => (s, "eq")
+  | ["case", _, _, _] => ({ s with world := true }, "ok")
+  | ["pair", _, _] => if s.world then (s, "eq") else bad s
+  | ["seq", _] => if s.world then (s, "eq") else bad s
   -- stream `writers`: the spec side of the writer discipline (theorem `never_stale`): after any sequence of
   -- real request / push / config-dump writers and accepted changes, a reader with the current snapshot gets
   -- from the shared cache what generation from scratch yields
-  | ["case", _, _] => (s, "ok")
-  | ["connect", _, _] => (s, "ok")
-  | ["connect", _, _, _] => (s, "ok")
-  | ["toggle", _] => (s, "ok")
-  | ["epupdate", _, _] => (s, "ok")
-  | ["dumptypes", _] => (s, "ok")
-  | ["request", _, _] => (s, "ok")
-  | ["change", _, _] => (s, "ok")
-  | ["push", _] => (s, "ok")
-  | ["dump", _] => (s, "ok")
-  | ["check", _] => (s, "eq")
+  | ["case", _, _] => ({ s with conns := [], world := true }, "ok")
+  | ["connect", id, _] => if s.world then ({ s with conns := id :: s.conns }, "ok") else bad s
+  | ["connect", id, _, _] => if s.world then ({ s with conns := id :: s.conns }, "ok") else bad s
+  | ["toggle", _] => if s.world then (s, "ok") else bad s
+  | ["epupdate", _, _] => if s.world then (s, "ok") else bad s
+  | ["dumptypes", id] => if s.conns.contains id then (s, "ok") else bad s
+  | ["request", id, ty] =>
+    if s.conns.contains id && ["cds", "eds", "rds", "sds"].contains ty then (s, "ok") else bad s
+  | ["change", _, _] => if s.world then (s, "ok") else bad s
+  | ["push", id] => if s.conns.contains id then (s, "ok") else bad s
+  | ["dump", id] => if s.conns.contains id then (s, "ok") else bad s
+  | ["check", id] => if s.conns.contains id then (s, "eq") else bad s
   | "case" :: _ => (DState.init, "bad-op")
   | _ => bad s
 
